@@ -141,6 +141,29 @@ Theorem C08_opts_order_independent_refuted :
 Proof. exact opts_order_refuted. Qed.
 Print Assumptions C08_opts_order_independent_refuted.
 
+(* PARTIAL (batches): under the extra hypothesis that no two input entries share routing pair,
+   header key and trace number (no_collision; the witness above violates exactly this), the
+   boolean fields of an output batch are exactly those of the non-empty input batches with its
+   routing pair and header key, hence independent of the order of the inputs *)
+Theorem C08_opts_batch_exact_partial : forall fs c g rb i,
+  no_collision fs -> In g (merge_files_o fs c) -> In rb (rfo_batches g) ->
+  (oflag i (rbo_opts rb) = true <->
+   exists f ib, In f fs /\ In ib (fo_batches f) /\ fo_route f = rfo_route g
+                /\ hkey (ib_header (ibo_batch ib)) = hkey (rbo_header rb)
+                /\ ib_entries (ibo_batch ib) <> nil
+                /\ oflag i (batch_in_opts (fo_opts f) ib) = true).
+Proof. exact merge_o_batch_exact. Qed.
+Print Assumptions C08_opts_batch_exact_partial.
+
+Theorem C08_opts_order_independent_partial : forall fs fs' c c' g g' rb rb' i,
+  no_collision fs -> Permutation fs fs' ->
+  In g (merge_files_o fs c) -> In rb (rfo_batches g) ->
+  In g' (merge_files_o fs' c') -> In rb' (rfo_batches g') ->
+  rfo_route g = rfo_route g' -> hkey (rbo_header rb) = hkey (rbo_header rb') ->
+  oflag i (rbo_opts rb) = oflag i (rbo_opts rb').
+Proof. exact merge_o_batch_flags_order. Qed.
+Print Assumptions C08_opts_order_independent_partial.
+
 (* ---------------------------------------------------------------- tie to the source of this run *)
 
 Theorem C08_opts_source_tables :
